@@ -457,6 +457,31 @@ func genDec(g *gen, w *bufio.Writer, n int, maxLen int, ops []string, poison boo
 			}
 		case "add":
 			x, y = g.nvec(lx), g.nvec(ly)
+			if g.r.Intn(3) == 0 && lx >= 2 {
+				// operands of different lengths whose carry ripples through every remaining word of the longer one
+				// (all B-1 above the shorter operand) and out of the top: the sum needs a new top word
+				ly = 1 + g.r.Intn(lx-1)
+				x = g.nvec(lx)
+				for k := ly; k < lx; k++ {
+					x[k] = B - 1
+				}
+				// y = B^ly - x_low: the low parts sum to exactly B^ly
+				if x[0] == 0 {
+					x[0] = 1 + Word(g.r.Uint64()%(B-1))
+				}
+				x[ly-1] %= B - 1 // keeps y's top word non-zero
+				if ly == 1 && x[0] == 0 {
+					x[0] = 7
+				}
+				y = make([]Word, ly)
+				y[0] = B - x[0]
+				for k := 1; k < ly; k++ {
+					y[k] = B - 1 - x[k]
+				}
+				if g.r.Intn(2) == 0 {
+					x, y = y, x
+				}
+			}
 		case "sub":
 			x, y = g.nvec(lx), g.nvec(ly)
 			if len(y) > len(x) {
